@@ -111,4 +111,5 @@ def vector(req, kind, host, port, sel="ok", tls=False, beside=""):
     if kind in ("v4", "v6"):
         addr = ipaddress.ip_address(host).packed
     return dict(req=req, kind=kind, name=list(name), addr=list(addr), port=port if req == "CONNECT" else 0,
-                first=list(first), mid=list(mid), second=list(second), err=err, host=host, sel=sel, tls=bool(tls), beside=beside)
+                first=list(first), mid=list(mid), second=list(second), err=err, host=(host if isinstance(host, str) else host.decode("latin-1")), hostbytes=not isinstance(host, str),
+                sel=sel, tls=bool(tls), beside=beside)
